@@ -14,6 +14,7 @@ import (
 	"fmt"
 	"io"
 	"net"
+	"strings"
 
 	"github.com/gotd/td/bin"
 	"github.com/gotd/td/internal/verif/kit"
@@ -146,12 +147,32 @@ func wrapCodec(w W) codec.Codec {
 	return cd
 }
 
-// produce returns the byte stream on the wire. over=true: the last payload is above the limit and
-// the sender refused it (then the stream carries the earlier frames only).
-func produce(w W, payloads [][]byte) (wire []byte, refused bool, bad *kit.Result) {
-	fail := func(class, f string, a ...any) ([]byte, bool, *kit.Result) {
+// mustAccept: a payload the statement quantifies over (non-empty, multiple of 4, frame within the
+// limit); the sender has to take it. Anything else may be rejected by the sender.
+func mustAccept(proto string, n int) bool {
+	return n > 0 && n%4 == 0 && mustDeliver(proto, n, 3)
+}
+
+// produce returns the byte stream on the wire and which sends were rejected by the sender. A
+// rejected send must return an error and must leave the stream untouched.
+func produce(w W, payloads [][]byte) (wire []byte, rejected []bool, bad *kit.Result) {
+	fail := func(class, f string, a ...any) ([]byte, []bool, *kit.Result) {
 		r := kit.Bad(class, f, a...)
-		return nil, false, &r
+		return nil, nil, &r
+	}
+	rejected = make([]bool, len(payloads))
+	// onErr decides what a send error means; returns a violation or nil (= legitimately rejected)
+	onErr := func(i int, before, after int, err error) *kit.Result {
+		if mustAccept(w.Proto, len(payloads[i])) {
+			r := kit.Bad("send-error:"+w.Proto, "send of payload %d (%d bytes): %v", i, len(payloads[i]), err)
+			return &r
+		}
+		if after != before {
+			r := kit.Bad("rejected-send-wrote-bytes:"+w.Proto, "send %d (%d bytes) returned %v but put %d bytes on the wire", i, len(payloads[i]), err, after-before)
+			return &r
+		}
+		rejected[i] = true
+		return nil
 	}
 	switch w.Src {
 	case "td":
@@ -170,14 +191,14 @@ func produce(w W, payloads [][]byte) (wire []byte, refused bool, bad *kit.Result
 		}
 		for i, p := range payloads {
 			b := &bin.Buffer{Buf: append([]byte(nil), p...)}
+			before := len(conn.W)
 			if err := cd.Write(sink, b); err != nil {
-				if !mustDeliver(w.Proto, len(p), 3) {
-					return conn.W, true, nil
+				if r := onErr(i, before, len(conn.W), err); r != nil {
+					return nil, nil, r
 				}
-				return fail("send-error:"+w.Proto, "Write of payload %d (%d bytes): %v", i, len(p), err)
 			}
 		}
-		return conn.W, false, nil
+		return conn.W, rejected, nil
 	case "listener":
 		conn := &rt.Conn{}
 		var tc transport.Conn
@@ -196,14 +217,14 @@ func produce(w W, payloads [][]byte) (wire []byte, refused bool, bad *kit.Result
 			return fail("send-error:"+w.Proto, "Handshake: %v", err)
 		}
 		for i, p := range payloads {
+			before := len(conn.W)
 			if err := tc.Send(context.Background(), &bin.Buffer{Buf: append([]byte(nil), p...)}); err != nil {
-				if !mustDeliver(w.Proto, len(p), 3) {
-					return conn.W, true, nil
+				if r := onErr(i, before, len(conn.W), err); r != nil {
+					return nil, nil, r
 				}
-				return fail("send-error:"+w.Proto, "Send of payload %d (%d bytes): %v", i, len(p), err)
 			}
 		}
-		return conn.W, false, nil
+		return conn.W, rejected, nil
 	case "ref":
 		var body []byte
 		for i, p := range payloads {
@@ -218,11 +239,11 @@ func produce(w W, payloads [][]byte) (wire []byte, refused bool, bad *kit.Result
 			}
 			hdr, o := rt.Obf2ClientHeader(rnd, rt.Tag(w.Proto), obfDC, secretOf(w.Wrap))
 			o.C2S.XORKeyStream(body, body)
-			return append(hdr, body...), false, nil
+			return append(hdr, body...), rejected, nil
 		case w.Wrap == "header":
-			return append(append([]byte(nil), rt.Header(w.Proto)...), body...), false, nil
+			return append(append([]byte(nil), rt.Header(w.Proto)...), body...), rejected, nil
 		}
-		return body, false, nil
+		return body, rejected, nil
 	}
 	panic("unknown src " + w.Src)
 }
@@ -276,23 +297,68 @@ func specCheck(w W, wire []byte, payloads [][]byte) *kit.Result {
 
 func wantCode(code int32) int32 { return -code } // wraps for MinInt32, as any int32 negation does
 
+// eval: a failure in a session that contained rejected sends is attributed to them (own class)
+// when the same session without the rejected sends passes; otherwise the original class stands.
 func eval(w W) kit.Result {
-	payloads := make([][]byte, len(w.Frames))
+	r, rejected := evalSession(w)
+	if r.Class == "" || len(rejected) == 0 || strings.HasPrefix(r.Class, "rejected-send-wrote-bytes:") {
+		return r
+	}
+	clean := w
+	clean.Frames = nil
+	for i, f := range w.Frames {
+		if !rejected[i] {
+			clean.Frames = append(clean.Frames, f)
+		}
+	}
+	if rc, _ := evalSession(clean); rc.Class == "" {
+		r.Msg = fmt.Sprintf("%d of %d sends were rejected by the sender (error returned, nothing written) and the same session without them passes; with them: [%s] %s", len(rejected), len(w.Frames), r.Class, r.Msg)
+		r.Class = "rejected-send-disturbs-stream:" + w.Proto
+	}
+	return r
+}
+
+// evalSession returns the verdict and the indices of the sends the sender rejected.
+func evalSession(w W) (kit.Result, map[int]bool) {
+	allPayloads := make([][]byte, len(w.Frames))
 	for i := range w.Frames {
-		payloads[i] = payloadOf(w, i)
+		allPayloads[i] = payloadOf(w, i)
 	}
-	wire, refused, bad := produce(w, payloads)
+	wire, rejected, bad := produce(w, allPayloads)
 	if bad != nil {
-		return *bad
+		return *bad, nil
 	}
+	// from here on only the accepted sends count
+	var payloads [][]byte
+	var frames []Frame
+	nRejected := 0
+	for i, p := range allPayloads {
+		if rejected[i] {
+			nRejected++
+			continue
+		}
+		payloads = append(payloads, p)
+		frames = append(frames, w.Frames[i])
+	}
+	r := evalAccepted(w, wire, frames, payloads, nRejected)
+	var rej map[int]bool
+	for i, x := range rejected {
+		if x {
+			if rej == nil {
+				rej = map[int]bool{}
+			}
+			rej[i] = true
+		}
+	}
+	return r, rej
+}
+
+func evalAccepted(w W, wire []byte, frames []Frame, payloads [][]byte, nRejected int) kit.Result {
 	overLimit := false
-	if n := len(w.Frames); n > 0 && !mustDeliver(w.Proto, w.Frames[n-1].Len, 3) {
-		overLimit = true
+	if n := len(frames); n > 0 && !mustDeliver(w.Proto, frames[n-1].Len, 3) {
+		overLimit = true // accepted by the sender although the frame exceeds the limit
 	}
-	if refused {
-		payloads = payloads[:len(payloads)-1]
-	}
-	if w.Src != "ref" && !(overLimit && !refused) {
+	if w.Src != "ref" && !overLimit {
 		if r := specCheck(w, wire, payloads); r != nil {
 			return *r
 		}
@@ -301,6 +367,10 @@ func eval(w W) kit.Result {
 	// receiver
 	conn := rt.NewConn(wire, w.Chunk)
 	var recv func(b *bin.Buffer) error
+	if w.Src == "listener" && len(wire) == 0 && len(payloads) == 0 {
+		// every send was rejected and the protocol has no header: there is no connection to detect
+		return kit.OKo(w.Proto + ":" + w.Wrap + ":nothing-on-the-wire")
+	}
 	if w.Src == "listener" {
 		ln := &rt.Listener{Queue: []net.Conn{conn}}
 		var l transport.Listener
@@ -340,7 +410,7 @@ func eval(w W) kit.Result {
 	outcome := "delivered"
 	for i, p := range payloads {
 		err := recv(b)
-		f := w.Frames[i]
+		f := frames[i]
 		last := i == len(payloads)-1
 		if last && overLimit {
 			// statement covers payloads up to the frame limit only: anything but wrong data is fine
@@ -387,8 +457,8 @@ func eval(w W) kit.Result {
 	if err := recv(b); err == nil {
 		return kit.Bad("extra-frame:"+w.Proto, "after the %d sent frames one more Read returned a %d-byte frame", len(payloads), b.Len())
 	}
-	if refused {
-		outcome = "over-limit:refused-by-sender"
+	if nRejected > 0 {
+		outcome += "+rejected-sends"
 	}
 	return kit.OKo(w.Proto + ":" + w.Wrap + ":" + outcome)
 }
@@ -451,9 +521,10 @@ func main() {
 			"protocols {abridged, intermediate, padded, full} x wrapping {header, NoHeader, obfuscated2 without/with secret} (full has no obfuscation tag; listener: plain and obfuscated); " +
 			"payload sequences: all sequences of length<=2 over {4(error code),8,12,500,504,508,512} plus triples over {8,504,508} (thorough: triples over {4,8,504,508,512}), padded-intermediate padding 0..3 on every position; " +
 			"chunkings of the receiving side: whole, 1-byte reads, every single split point (streams <= 2 KiB), every pair of split points (sequences over {4,8,12} with streams <= 64 B, or <= 64 B after the 64-byte obfuscated2 header); " +
+			"sessions with rejected sends (empty payload, length 6/10 not divisible by 4, 16 MiB+4) interleaved with accepted ones, 11 shapes with every single split + 3 shapes with the over-limit payload, td and listener senders, all protocols and wrappings; " +
 			"large frames 64 KiB and 256 KiB (thorough: 1 MiB, 16 MiB-16, -12, -8, -4, 16 MiB, 16 MiB+4) with whole / 4 KiB / 64 KiB / 1-byte / edge splits; 4-byte frames with 9 code values; reference sender with 4..15 padding bytes (informational). " +
 			"A split point p means one Read ends exactly at stream offset p, i.e. a short read of any size at any Read call (this subsumes <=2 short-read deviations). " +
-			"Oracle: received payloads == sent payloads in order, then no further frame; 4-byte frame => *codec.ProtocolErr{Code: -value}; td-produced streams parse to the same payloads under the reference decoder; " +
+			"Oracle: a send that returns an error has written nothing; received payloads == accepted payloads in order, then no further frame; 4-byte frame => *codec.ProtocolErr{Code: -value}; td-produced streams parse to the same payloads under the reference decoder; " +
 			"listener: codec of the accepted connection == client's protocol. Payloads whose frame would exceed 16 MiB may be refused by either side (statement covers up to the frame limit). distinct = distinct witnesses.")
 		c.Assume("scripted in-memory reader never returns (0,nil) and reports EOF separately like TCP; reference framing and obfuscated2 key schedule of lib/reftransport written from core.telegram.org/mtproto/mtproto-transports; concurrent senders on one connection are NOT covered (needs the controlled scheduler)")
 
@@ -551,6 +622,30 @@ func main() {
 						if code != -404 {
 							jobs = append(jobs, job{base: W{Proto: proto, Wrap: wrap, Src: src, Frames: []Frame{{Len: 4, Code: code}}}, list: both})
 						}
+					}
+				}
+			}
+		}
+		// rejected sends interleaved with accepted ones: empty payload, length not a multiple of 4
+		// (full accepts those), payload above 16 MiB. The sender must return an error and write
+		// nothing; the receiver must still get exactly the accepted payloads, in order.
+		const over = rt.FrameLimit + 4
+		rejSeqs := [][]int{{0, 8, 10, 12, 6, 4, 508, 0, 8}}
+		for _, r := range []int{0, 10} {
+			rejSeqs = append(rejSeqs, []int{r}, []int{r, 8}, []int{8, r, 12}, []int{8, 12, r}, []int{r, r, 8, r, 504, r, 508, 4, r, 8})
+		}
+		overSeqs := [][]int{{8, over, 12}, {over, 8, 8}, {0, 8, over, 10, 12, over, 508}}
+		for _, proto := range rt.Protocols {
+			for _, src := range []string{"td", "listener"} {
+				for _, wrap := range wrapsOf(proto, src) {
+					for _, s := range rejSeqs {
+						jobs = append(jobs, job{base: W{Proto: proto, Wrap: wrap, Src: src, Frames: mk(s, []int{1, 3, 2})}, single: true})
+					}
+					if c.Quick() && (wrap == "noheader" || wrap == "obf-secret") {
+						continue
+					}
+					for _, s := range overSeqs {
+						jobs = append(jobs, job{base: W{Proto: proto, Wrap: wrap, Src: src, Frames: mk(s, []int{1, 3, 2})}, list: both, big: true})
 					}
 				}
 			}
